@@ -308,7 +308,20 @@ def panic_key(F, e):
                 inst = ci
                 break
     path = inst["path"] if inst else str(e.inst)
-    return "%s|%s|%s" % (path, cls, src_line(F, span)), span_str(span)
+    via = ""
+    if cls == "panic" and getattr(e, "via", None) and F.by_key.get(e.inst, {}).get("local"):
+        via = "|via#" + ",".join(str(v) for v in e.via)
+        # a panicking helper (e.g. f64_to_u64) is judged per crate-local call site
+        for caller_key, blk in reversed([x for x in e.sites if x]):
+            ci = F.by_key.get(caller_key)
+            if ci is not None and ci.get("local") and ci["path"] != path:
+                line = src_line(F, ci["blocks"][blk]["term"].get("span"))
+                callee = (ci["blocks"][blk]["term"]["func"].get("fn") or {}).get("path")
+                same = [bj for bj, b in enumerate(ci["blocks"]) if b["term"] and b["term"]["k"] == "call" and
+                        (b["term"]["func"].get("fn") or {}).get("path") == callee and src_line(F, b["term"].get("span")) == line]
+                via += " @ %s#%d" % (line, same.index(blk) if blk in same else 0)
+                break
+    return "%s|%s|%s%s" % (path, cls, src_line(F, span), via), span_str(span)
 
 
 def all_panic_sites(F, reach):
@@ -329,6 +342,11 @@ def all_panic_sites(F, reach):
                 if c:
                     out.setdefault("%s|%s|%s" % (inst["path"], c, src_line(F, t.get("span"))), span_str(t.get("span")))
     return out
+
+
+def panic_key_matches(pk, sites_all):
+    """A `via#..` event key belongs to the enumerated edge with the same prefix."""
+    return pk in sites_all or pk.split("|via#")[0] in sites_all
 
 
 def run(chk, F, tier, write_baseline=False):
@@ -418,20 +436,24 @@ def run(chk, F, tier, write_baseline=False):
     ball = set(base.get("panic_sites_all", []))
     bunp = set(base.get("panic_unproved", []))
     ndis = 0
-    for pk in sorted(sites_all):
-        if pk in panic_seen:
+    seen_prefix = {}
+    for pk, info in panic_seen.items():
+        seen_prefix.setdefault(pk.split("|via#")[0], []).append(pk)
+    for base_pk in sorted(sites_all):
+        for pk in (seen_prefix.get(base_pk) or [base_pk]):
+          if pk in panic_seen:
             info = panic_seen[pk]
             if pk in bunp:
                 chk.unproved_note("panic", pk, "may panic (%s); not discharged on the reference tree either" % info["kind"], info["where"])
-            elif pk in ball:
+            elif base_pk in ball:
                 chk.violation("panic", pk, "panic edge `%s` in %s may now be reached in sample() (it was discharged on the reference tree): %s"
                               % (pk.split("|")[1], pk.split("|")[0], pk.split("|")[2]), where=info["where"])
             else:
                 chk.unproved_note("panic", pk, "UNREVIEWED new panic edge, not discharged", info["where"])
-        else:
+          else:
             ndis += 1
             chk.ok("panic", pk, nontrivial=True)
     for pk, info in panic_seen.items():
-        if pk not in sites_all and pk not in bunp:
+        if not panic_key_matches(pk, sites_all) and pk not in bunp:
             chk.unproved_note("panic", pk, "UNREVIEWED panic event outside the enumerated edges", info["where"])
     chk.extra["panic_edges"] = {"enumerated": len(sites_all), "discharged": ndis, "may_panic": len(panic_seen)}
